@@ -35,6 +35,7 @@ type Step struct {
 	Parallel bool   `json:"parallel,omitempty"`
 	Steps    []Step `json:"steps,omitempty"`
 	Tag      string `json:"tag,omitempty"`
+	Suite    bool   `json:"suite,omitempty"` // sub: the subtest function is declared in the non-test file suite.go of the package
 }
 
 type Node struct {
